@@ -39,7 +39,15 @@ def cases(rng, tier):
     for i in range(n):
         cfg = rng.choice(shardprop.CFGS)
         ntypes, nctx = rng.range(1, 2), rng.range(1, 3)
-        if i % 3 == 0:
+        if i % 6 == 5:
+            # reads racing with background flushes: every STORE is followed at once by a QUERY; after the
+            # engine settled, every acknowledged event must be readable (also before any restart)
+            cap = cfg["fill_factor"] * cfg["event_per_zone"]
+            ops = [("SQ", rng.below(ntypes), rng.below(nctx)) for _ in range(rng.range(2 * cap, 5 * cap))]
+            ops += [("SETTLE",), ("O",), ("R",), ("O",)]
+            c = shardprop.mk_case("race", cfg, ntypes, nctx, ops)
+            out.append(c)
+        elif i % 3 == 0:
             # a park point inside the flush of a full memtable, reads while parked
             cap = cfg["fill_factor"] * cfg["event_per_zone"]
             ops = []
@@ -60,8 +68,20 @@ def cases(rng, tier):
 
 
 run_sides = shardprop.run_sides
-same = shardprop.same
-diffs = shardprop.diffs
+
+
+def diffs(c, impl, model):
+    d = shardprop.diffs(c, impl, model)
+    if c.get("kind") == "race":
+        # the settled observation after racing reads (obs#0) may miss segment rows (known, schedule dependent
+        # finding ReadDuringFlushPoisonsSegmentCache): what was READ is judged by the oracle only; the
+        # directories, WAL files and everything after the restart are still compared with the model
+        d = [x for x in d if not (x.startswith("obs#0:") and re.search(r"obs#0: (sel|cnt|rp)", x))]
+    return d
+
+
+def same(c, impl, model):
+    return not diffs(c, impl, model)
 
 
 def oracle(c, impl):
@@ -84,6 +104,8 @@ def classify(c, impl):
         return "CountDuringFlush" if "parked at" in why else "CountIgnoresTypeInMemory"
     if "parked at" in why and (" sel" in why or " rp" in why):
         return "ReadDuringFlushDropsSegmentFlow"
+    if c.get("kind") == "race" and "obs#0" in why and (" sel" in why or " rp" in why or " cnt" in why):
+        return "ReadDuringFlushPoisonsSegmentCache"
     return None
 
 
